@@ -31,5 +31,6 @@ CONSTANTS
   UsedMode = "one"
   GrindFail = FALSE
 VIEW view
+INVARIANTS TypeOK NoNegative NoCreation ExactUnlessBurn EtxBacked ChargeWithinBounds FailedTxTouchesOnlyPayer FailedEtxTouchesNothing AllOrNothing StackDiscipline IndexFresh BlockOutboundIsConcatOfSurvivors
 ACTION_CONSTRAINT EmitHist
 CHECK_DEADLOCK FALSE
